@@ -137,6 +137,13 @@ EffectiveSegs(segs) ==
         IN IF sg.si < 0 /\ ~closes THEN acc ELSE Append(acc, sg)
   IN FoldLeft(step, <<>>, segs)
 
+(* the same without dropping anything: every decoded segment by value        *)
+SegValsOfOptMapRaw(optmap) ==
+  IF optmap = <<>> THEN <<>>
+  ELSE LET map == optmap[1]
+           segs == DecodeMappings(map.m)
+       IN [i \in 1..Len(segs) |-> <<segs[i].gl, segs[i].gc, Full(SegAttr(map, segs[i]))>>]
+
 SegValsOfOptMap(optmap) ==
   IF optmap = <<>> THEN <<>>
   ELSE LET map == optmap[1]
